@@ -97,6 +97,9 @@ func (in *Interp) call(st *State, call *ast.CallExpr) Val {
 			in.eval(st, call.Args[1])
 			if bv, ok := dst.(BufV); ok {
 				in.site(st, bv, "put", bv.Off, Const(w), call)
+				if b := st.bufs[bv.ID]; b != nil && (b.Origin == "field" || b.Origin == "arg") {
+					in.recordStore(st, b.Src+"[]", "put", in.operand(st, call.Args[1]), UnkV{}, call.Pos())
+				}
 				in.write(st, bv, Const(w), &Rec{Kind: "int", Src: in.operand(st, call.Args[1]), Order: order, Expr: call.Args[1], Pos: call.Pos()})
 			} else {
 				in.note(call.Pos(), "%s into unknown buffer %s", name, in.render(st, call.Args[0]))
@@ -147,6 +150,13 @@ func (in *Interp) call(st *State, call *ast.CallExpr) Val {
 					recvVal = cur
 				}
 			}
+		}
+	}
+
+	cr := &CallRec{Callee: f, Recv: recvVal, Pos: call.Pos(), Guard: in.guard(), Text: f.FullName()}
+	for i := in; i != nil; i = i.parent {
+		if i.parent == nil {
+			i.Calls = append(i.Calls, cr)
 		}
 	}
 
@@ -232,7 +242,6 @@ func (in *Interp) call(st *State, call *ast.CallExpr) Val {
 		for _, a := range call.Args {
 			in.eval(st, a)
 		}
-		in.Calls = append(in.Calls, &CallRec{Callee: f, Pos: call.Pos(), Guard: in.guard(), Text: pkg + "." + name})
 		return UnkV{}
 	case "unsafe":
 		return UnkV{}
@@ -242,7 +251,7 @@ func (in *Interp) call(st *State, call *ast.CallExpr) Val {
 	for _, a := range call.Args {
 		args = append(args, in.eval(st, a))
 	}
-	in.Calls = append(in.Calls, &CallRec{Callee: f, Recv: recvVal, Args: args, Pos: call.Pos(), Guard: in.guard(), Text: f.FullName()})
+	cr.Args = args
 
 	// the wire interface: Len / MarshalBinary / UnmarshalBinary on some value
 	if sig.Recv() != nil {
@@ -478,6 +487,10 @@ func (in *Interp) copyCall(st *State, call *ast.CallExpr) Val {
 		in.Copies = append(in.Copies, &CopyRec{Dst: in.bufName(st, dv), DstLen: dl, SrcLen: w, DstOrigin: db.Origin, Pos: call.Pos(), Guard: in.guard()})
 		return IntV{Min(w, dl)}
 	}
+	// a copy into a receiver (or argument) slice is a store into caller-visible memory
+	if db != nil && (db.Origin == "field" || db.Origin == "arg") {
+		in.recordStore(st, db.Src+"[]", "copy", srcName, UnkV{}, call.Pos())
+	}
 	// encoder direction
 	w := slen
 	capped := false
@@ -486,6 +499,9 @@ func (in *Interp) copyCall(st *State, call *ast.CallExpr) Val {
 		capped = true
 	}
 	rec := &Rec{Kind: kind, Src: srcName, Pos: call.Pos(), Expr: call.Args[1]}
+	if sb != nil {
+		rec.Snap = sb.Snap
+	}
 	if sb != nil && (sb.Origin == "make" || sb.Origin == "append" || sb.Origin == "lit") && len(sb.Recs) > 0 {
 		// a locally built block is copied: carry its records over
 		for _, r := range sb.Recs {
@@ -562,7 +578,7 @@ func (in *Interp) appendCall(st *State, call *ast.CallExpr) Val {
 		}
 		nb := &BufObj{Origin: "append", Len: baseLen, Extent: baseLen, Pos: call.Pos(), Src: bb.Src}
 		if bb.Origin == "enc" && len(bb.Recs) == 0 {
-			nb.Recs = append(nb.Recs, &Rec{Off: Const(0), W: baseLen, Kind: "child", Src: "enc(" + bb.Src + ")", Pos: bb.Pos, Guard: in.guard(), Fn: in.fi.Key})
+			nb.Recs = append(nb.Recs, &Rec{Off: Const(0), W: baseLen, Kind: "child", Src: "enc(" + bb.Src + ")", Pos: bb.Pos, Guard: in.guard(), Fn: in.fi.Key, Snap: bb.Snap})
 			nb.Src = ""
 		} else if bb.Origin == "field" || bb.Origin == "arg" {
 			// appending to a receiver slice: the result aliases/extends the field
@@ -602,7 +618,7 @@ func (in *Interp) appendCall(st *State, call *ast.CallExpr) Val {
 					if sb.Origin == "param" {
 						src = "P"
 					}
-					nb.Recs = append(nb.Recs, &Rec{Off: baseLen, W: sl, Kind: kind, Src: src, Pos: call.Pos(), Guard: in.guard(), Loop: loop, Fn: in.fi.Key, Expr: call.Args[1]})
+					nb.Recs = append(nb.Recs, &Rec{Off: baseLen, W: sl, Kind: kind, Src: src, Pos: call.Pos(), Guard: in.guard(), Loop: loop, Fn: in.fi.Key, Expr: call.Args[1], Snap: sb.Snap})
 					if sb.Origin == "param" && bb.Origin != "param" {
 						in.addRead(&Rec{Off: s.Off, W: sl, Kind: "bytes", Src: in.operand(st, call.Args[0]), Pos: call.Pos()})
 					}
@@ -897,7 +913,14 @@ func (in *Interp) marshalCall(st *State, f *types.Func, recv Val, call *ast.Call
 	} else {
 		l = LenCall(path, typ)
 	}
-	b := &BufObj{Origin: "enc", Src: path, SrcType: typ, Len: l, Extent: l, Pos: call.Pos()}
+	b := &BufObj{Origin: "enc", Src: path, SrcType: typ, Len: l, Extent: l, Pos: call.Pos(), Snap: map[string]*Term{}}
+	for k, v := range st.fields {
+		if strings.HasPrefix(k, path+".") {
+			if iv, ok := v.(IntV); ok {
+				b.Snap[strings.TrimPrefix(k, path+".")] = iv.T
+			}
+		}
+	}
 	bv := in.newBuf(st, b)
 	return TupleV{[]Val{bv, ObjV{Path: "err:" + path, Type: types.Universe.Lookup("error").Type()}}}
 }
@@ -1008,7 +1031,6 @@ func (sub *Interp) runBody(st *State, ft *ast.FuncType, body *ast.BlockStmt, env
 	st.vars = saved
 	sub.parent.Reads = append(sub.parent.Reads, sub.Reads...)
 	sub.parent.Sites = append(sub.parent.Sites, sub.Sites...)
-	sub.parent.Calls = append(sub.parent.Calls, sub.Calls...)
 	sub.parent.Copies = append(sub.parent.Copies, sub.Copies...)
 	sub.parent.Allocs = append(sub.parent.Allocs, sub.Allocs...)
 	sub.parent.LoopsSeen = append(sub.parent.LoopsSeen, sub.LoopsSeen...)
